@@ -237,6 +237,6 @@ def s_sim(draw, max_steps=40):
 def parts(tier):
     if tier == 'quick':
         return [Part('direct', check_direct, strategy=s_direct(), examples=400, shards=4),
-                Part('simulation', check_sim, strategy=s_sim(), examples=80, shards=4)]
+                Part('simulation', check_sim, strategy=s_sim(), examples=160, shards=4)]
     return [Part('direct', check_direct, strategy=s_direct(), examples=6000, shards=8),
             Part('simulation', check_sim, strategy=s_sim(120), examples=1500, shards=8)]
